@@ -365,7 +365,7 @@ func checkChecksumFn(c *core.Ctx, rule string, fn *ssa.Function) {
 		okBound := false
 		if ia != nil {
 			for _, ref := range *ia.Index.Referrers() {
-				if bo, ok := ref.(*ssa.BinOp); ok && bo.Op == token.LSS && an.Render(bo.Y) == "len("+fn.Params[0].Name()+")" {
+				if bo, ok := ref.(*ssa.BinOp); ok && bo.Op == token.LSS && an.Render(bo.Y) == "len("+an.Render(fn.Params[0])+")" {
 					okBound = true
 				}
 			}
@@ -535,7 +535,7 @@ func checkIntCodec(c *core.Ctx, rule string) {
 	c.Check(ok && n == 1, rule, "Int.ToBytes", "decimal text of the value when populated", fn.Pos(), "[]byte(strconv.Itoa(v.value))", "Int.ToBytes is not strconv.Itoa of the stored value")
 	if ni := c.Func("fix", "NewInt"); ni != nil {
 		lit := constructorLiteral(ni)
-		c.Check(lit["value"] == ni.Params[0].Name() && lit["valid"] == "true", rule, "NewInt", "stores its argument and marks it populated", ni.Pos(), fmt.Sprint(lit), "NewInt builds "+fmt.Sprint(lit))
+		c.Check(lit["value"] == an.Render(ni.Params[0]) && lit["valid"] == "true", rule, "NewInt", "stores its argument and marks it populated", ni.Pos(), fmt.Sprint(lit), "NewInt builds "+fmt.Sprint(lit))
 	}
 }
 
